@@ -329,9 +329,24 @@ def entry_points():
     E.append(('Server.parse_authn_request-POST', idp_parse_post, forge.request(env.BASE, dest=world.SSO_A + '/post'), 'samlp:AuthnRequest'))
     E.append(('Server.parse_authn_request-Redirect', idp_parse_redirect, req, 'samlp:AuthnRequest'))
     E.append(('Server.parse_logout_request-SOAP', idp_parse_soap, forge.enc_soap(forge.request(env.BASE, kind='LogoutRequest', dest=world.SLO_A)), 'SOAP-ENV:Envelope'))
+    # every other request type that travels over SOAP has an unpacking function of its own
+    for meth, kind in (('parse_authz_decision_query', 'AuthzDecisionQuery'), ('parse_authn_query', 'AuthnQuery'), ('parse_attribute_query', 'AttributeQuery'),
+                       ('parse_name_id_mapping_request', 'NameIDMappingRequest'), ('parse_manage_name_id_request', 'ManageNameIDRequest'),
+                       ('parse_assertion_id_request', 'AssertionIDRequest')):
+        def f(d, meth=meth):
+            r = getattr(idp, meth)(d, world.BINDING_SOAP)
+            return r if (r is not None and r.message is not None) else None
+        try:
+            E.append(('Server.%s-SOAP' % meth, f, forge.enc_soap(forge.request(env.BASE, kind=kind)), 'SOAP-ENV:Envelope'))
+        except Exception:
+            pass
     return E
 
 
+# entry points whose valid example the pinned tree cannot unpack at all (no SOAP reader for the message type): the
+# hostile variants must be refused all the same
+BASELINE_MAY_FAIL = {'Server.parse_authz_decision_query-SOAP', 'Server.parse_authn_query-SOAP', 'Server.parse_attribute_query-SOAP',
+                     'Server.parse_name_id_mapping_request-SOAP', 'Server.parse_manage_name_id_request-SOAP', 'Server.parse_assertion_id_request-SOAP'}
 EP = {}
 
 
@@ -354,11 +369,18 @@ def evaluate(task):
         _k, name, every = task
         _n, fn, body, root = eps()[name]
         base = observe(fn, body)
-        if not base['returned']:
+        if not base['returned'] and name not in BASELINE_MAY_FAIL:
             out.append((name, 'baseline', 'valid-document-not-parsed:%s' % base['exc']))
         for pname, data, expect in payloads(body, root, canary):
             o = observe(fn, data)
             out.append((name, pname, judge(o, expect)))
+            if expect == 'reject':
+                # non-initial state: a good document, the hostile one (refused), the very same hostile one again
+                observe(fn, body)
+                observe(fn, data)
+                o2 = observe(fn, data)
+                y = judge(o2, expect)
+                out.append((name, pname + '@repeated-after-a-good-document', y))
         for cut in boundaries(body, every):
             o = observe(fn, body[:cut])
             out.append((name, 'prefix', judge(o, 'reject') and judge(o, 'reject') + '@%d' % cut))
